@@ -20,7 +20,9 @@ Definition pins : list string := ["usim/_basics/streams.py:Channel.closed";
   "usim/_primitives/notification.py:Notification.__subscription__";
   "usim/_primitives/notification.py:Notification.__del__";
   "usim/_primitives/notification.py:<module>";
-  "usim/_primitives/notification.py:Notification.<attrs>"].
+  "usim/_primitives/notification.py:Notification.<attrs>";
+  "usim/_basics/streams.py:<module>";
+  "usim/_basics/streams.py:Queue.__init__"].
 (** the functions the model of C11 was transcribed from are unchanged in /repo *)
 Lemma src_unchanged : forallb pin_ok pins = true.
 Proof. vm_compute. reflexivity. Qed.
